@@ -43,9 +43,9 @@ fn main() {
                 let args = fmt_args(&c.args);
                 // ops that may abort the process (std UB precondition checks in the debug build) leave their
                 // case behind, so that a crash can be reported with the input that caused it
-                if c.op.ends_with("panel") || c.op.contains("risky") {
-                    let _ = std::fs::write(&cur_path, format!("{}:{}\t{}\t{}\t!crash\n", n, c.op, c.models.first().copied().unwrap_or(c.op), args));
-                }
+                // (every case is recorded: a change to the implementation can make any of them abort, e.g. a panic
+                // inside a destructor while unwinding)
+                let _ = std::fs::write(&cur_path, format!("{}:{}\t{}\t{}\t!crash\n", n, c.op, c.models.first().copied().unwrap_or(c.op), args));
                 let out = run_guarded(c.op, &c.args);
                 for m in &c.models {
                     writeln!(w, "{}:{}\t{}\t{}\t{}", n, c.op, m, args, out).unwrap();
